@@ -11,6 +11,7 @@ func init() {
 	verifRegister("VerifC04_EBudget", VerifC04_EBudget)
 	verifRegister("VerifC04_EHeights", VerifC04_EHeights)
 	verifRegister("VerifC04_ECancel", VerifC04_ECancel)
+	verifRegister("VerifC04_ECtxSeq", VerifC04_ECtxSeq)
 	verifRegister("VerifC04_EFresh", VerifC04_EFresh)
 	verifRegister("VerifC05_EClean", VerifC05_EClean)
 	verifRegister("VerifC05_EPanic", VerifC05_EPanic)
@@ -264,6 +265,77 @@ func VerifC04_ECancel() {
 	vCover("end")
 }
 
+// A context governs exactly the evaluation it was passed to.  Evaluation 1 (under context A, under
+// the background context, or under none) defines a worker -- a closure made inside a let / flet /
+// lambda scope, or a plain function; evaluation 2 calls it under ANOTHER context B that is cancelled
+// at its k-th poll: evaluation 2 stops at that very step, also inside the closure's dotimes.  The
+// other way round: A is cancelled after evaluation 1 has returned, and an evaluation 2 passed no
+// context at all runs to completion exactly as on a fresh runtime.
+func VerifC04_ECtxSeq() {
+	defs := []string{
+		"(set 'worker (let ((u 0)) (lambda (n) (dotimes (i n) (probe i)) (probe 'end))))",
+		"(defun worker (n) (dotimes (i n) (probe i)) (probe 'end))",
+		"(set 'worker (flet ((h (n) (dotimes (i n) (probe i)))) (lambda (n) (h n) (probe 'end))))",
+		"(set 'worker (funcall (lambda () (lambda (n) (let ((q 1)) (progn (probe 0) (probe q) (probe n) (dotimes (j 2)) (probe 'end)))))))",
+		"(set 'worker (let* ((a 1) (b 2)) (lambda (n) (let ((c 3)) (dotimes (i n) (progn (probe i) (probe c)))) (probe 'end))))",
+	}
+	calls := []string{"(funcall worker 4)", "(map 'list (lambda (x) (funcall worker x)) (list 1 2))", "(progn (probe 'go) (apply worker (list 3)))"}
+	di := vndChoice("def", len(defs))
+	ci := vndChoice("call", len(calls))
+	how1 := vndChoice("ctx1", 3) // evaluation 1: explicit context A / background / no context
+	dir := vndChoice("direction", 2)
+	k := vndInt("k")
+	vAssume(k >= 1)
+	vAssume(k <= 60)
+	// reference: both evaluations with no context on a fresh runtime
+	ps0 := &probeState{}
+	env0 := newEnv(ps0, lisp.WithMaxSteps(1<<62))
+	vAssert(env0.LoadString("d", defs[di]).Type != lisp.LError, "definitions load")
+	n0 := len(ps0.effects)
+	r0 := env0.LoadString("c", calls[ci])
+	total := env0.Runtime.Steps()
+	want := ps0.effects[n0:]
+
+	ps := &probeState{}
+	env := newEnv(ps, lisp.WithMaxSteps(1<<62)) // a budget that never runs out: steps are counted
+	ca := &cancelCtx{Context: context.Background(), cancel: 1 << 40}
+	var r1 *lisp.LVal
+	switch how1 {
+	case 0:
+		r1 = env.LoadStringContext(ca, "d", defs[di])
+	case 1:
+		r1 = env.LoadStringContext(context.Background(), "d", defs[di])
+	default:
+		r1 = env.LoadString("d", defs[di])
+	}
+	vAssert(r1.Type != lisp.LError, "evaluation 1 succeeds")
+	n1 := len(ps.effects)
+	vObserve("program", defs[di]+" / "+calls[ci])
+	if dir == 0 {
+		cb := &cancelCtx{Context: context.Background(), cancel: k}
+		r := env.LoadStringContext(cb, "c", calls[ci])
+		got := ps.effects[n1:]
+		vAssert(isPrefix(got, want), "cancellation only truncates")
+		if int64(k) <= total {
+			vAssert(r.Type == lisp.LError && r.Str == lisp.CondContextCancelled, "evaluation 2 is stopped by ITS context, whatever context the closure it calls was created under")
+			vAssert(env.Runtime.Steps() == int64(k), "at the very step at which the context is cancelled")
+			vCover("cancelled")
+		} else {
+			vAssert(outcome(r) == outcome(r0), "a context cancelled later does not affect the run")
+			vCover("completed")
+		}
+	} else {
+		ca.cancel = 0 // A is cancelled now, after the evaluation it was passed to has returned
+		r := env.LoadString("c", calls[ci])
+		got := ps.effects[n1:]
+		vAssert(outcome(r) == outcome(r0) && sameStrings(got, want), "a context that belonged to an earlier evaluation does not truncate a later one")
+		vAssert(env.Runtime.Steps() == total, "same step count as on a fresh runtime")
+		vCover("stale")
+	}
+	cleanRuntime(env, "user")
+	vCover("end")
+}
+
 // After ANY top-level entry point returns - with a value or with an error injected at every step
 // index - the runtime is clean and a later evaluation sees exactly the completed effects.
 func VerifC05_EClean() {
@@ -409,22 +481,43 @@ func VerifC05_EPanic() {
 		"(probe 'a) (handler-bind ((condition (lambda (c &rest xs) (probe 'h) (boom) 'handled))) (boom) (error 'e 1)) (probe 'z)",
 		"(probe 'a) (ignore-errors (boom) (probe 'b)) (probe 'z)",
 		"(probe 'a) (load-string \"(in-package 'other) (boom) (probe 'in)\") (probe 'z)",
+		// the panicking builtin reached through collapsed (resumed) tail calls that cross packages
+		"(probe 'a) (funcall 'relay:hop) (probe 'z)",
+		"(probe 'a) (relay:spin 2) (probe 'z)",
+		"(probe 'a) (apply 'relay:spin '(1)) (probe 'z)",
+		"(probe 'a) (funcall 'relay:hop3) (probe 'z)",
+		"(probe 'a) (ignore-errors (funcall 'relay:hop)) (funcall 'relay:viaother) (probe 'z)",
 	}
+	const prelude = "(in-package 'other) (export 'thru) (defun thru () (funcall 'user:boom)) " +
+		"(in-package 'relay) (export 'hop 'spin 'hop3 'viaother) (defun hop () (probe 'hop) (funcall 'user:boom)) " +
+		"(defun spin (n) (if (= n 0) (apply 'user:boom ()) (funcall 'spin (- n 1)))) " +
+		"(defun hop3 () (let ((q 1)) (cond ((= q 1) (funcall 'hop))))) (defun viaother () (funcall 'other:thru)) (in-package 'user)"
 	pi := vndChoice("prog", len(progs))
 	k := vndInt("k")
 	vAssume(k >= 0)
 	vAssume(k <= 4)
+	viaEval := vndBool("eval") // Eval of (progn ...) instead of a load: nothing above restores the package
 	ps0 := &probeState{}
 	env0 := newEnv(ps0)
-	env0.LoadString("defs", "(in-package 'other) (in-package 'user)")
+	vAssert(env0.LoadString("defs", prelude).Type != lisp.LError, "prelude loads")
 	r0 := env0.LoadString("prog", progs[pi])
 	ps := &probeState{panicAt: k}
 	env := newEnv(ps)
-	env.LoadString("defs", "(in-package 'other) (in-package 'user)")
+	env.LoadString("defs", prelude)
 	var r *lisp.LVal
 	withctx := vndBool("withctx")
 	var cancelFn context.CancelFunc
-	if withctx {
+	if viaEval && pi != 5 {
+		exprs, err := env.Runtime.Reader.Read("prog", stringsReader("(progn "+progs[pi]+")"))
+		vAssert(err == nil && len(exprs) == 1, "program parses")
+		if withctx {
+			var ctx context.Context
+			ctx, cancelFn = context.WithCancel(context.Background())
+			r = env.EvalContext(ctx, exprs[0])
+		} else {
+			r = env.Eval(exprs[0])
+		}
+	} else if withctx {
 		var ctx context.Context
 		ctx, cancelFn = context.WithCancel(context.Background())
 		r = env.LoadStringContext(ctx, "prog", progs[pi])
@@ -449,8 +542,10 @@ func VerifC05_EPanic() {
 		vAssert(len(ps.effects) < len(ps0.effects) || len(ps0.effects) == 0, "forms after the panic are not evaluated")
 		vCover("panic")
 	}
-	r2 := env.LoadString("again", "(probe 'again)")
-	vAssert(r2.Type != lisp.LError, "the runtime is usable after a recovered panic")
+	r2 := evalSrc(env, "(probe 'again) (set 'later-binding 5)")
+	vAssert(r2.Type != lisp.LError, "the runtime is usable after a recovered panic: "+outcome(r2))
+	r2 = env.LoadString("again", "user:later-binding")
+	vAssert(r2.Type == lisp.LInt && r2.Int == 5, "a later definition lands in the package that was current before the failed evaluation")
 	cleanRuntime(env, "user")
 	vCover("end")
 }
